@@ -1,10 +1,11 @@
 //! dsim-graph: deterministic simulation scenarios over the in-tree dasp_graph + petgraph.
 mod glike;
 mod graph;
+mod nodes;
 
 use simcore::Scenario;
 
 fn main() {
-    let scens: Vec<&dyn Scenario> = vec![&graph::GraphScenario];
+    let scens: Vec<&dyn Scenario> = vec![&graph::GraphScenario, &nodes::NodesScenario];
     simcore::cli::main(&scens)
 }
